@@ -779,3 +779,21 @@ pub fn run_c07(opts: &Opts, out: &mut Emitter) {
         });
     }
 }
+
+/// C14: the staged pipeline on boundary-heavy and malformed templates, everything under
+/// `catch_unwind`; the Lean side flags every observed panic.
+pub fn run_c14(opts: &Opts, out: &mut Emitter) {
+    let mut g = Gen::new(Rng::new(opts.seed ^ 0x1414));
+    for k in 0..opts.n {
+        g.param_rate = 2 + (k as u64 % 6);
+        g.malformed = k % 2 == 0;
+        g.boundary_ints = k % 3 != 0;
+        let depth = 1 + (k as u32 % 4);
+        let case = make_case(&mut g, depth);
+        out.case(if g.malformed { "stages-malformed" } else { "stages-boundary" }, || {
+            let mut v = case_json(&case, observe(&case, false, None));
+            v["probe"] = json!("stages");
+            v
+        });
+    }
+}
